@@ -51,6 +51,9 @@ def _run(repo, rep):
     rep.floor('R-WIRE', 17, 'seven parameters, seven rates, labels and epoch of __add__')
     # 1a. negation, slot by slot, rates included (clause: a set followed by its negation at the same epoch returns the start point)
     c11.neg_rules(repo, rep, Evaluator(repo))
+    # 1a'. the shipped ITRF sets are entered through iers2trans: every parameter AND every rate reaches its slot with the unit factor and,
+    # for the rotations and their rates, the sign reversal ("every shipped parameter set" of the quantifier)
+    c11.iers_rules(repo, rep, Evaluator(repo))
     # 1b. uncertainties: sigma_p(t) = sqrt(sigma_p^2 + (sigma_rate * dt)^2), rate sigmas passed on, in a new object
     sd_rules(repo, rep)
     # 2. conform14
